@@ -568,10 +568,19 @@ func Safe(fn func()) (pi *PanicInfo) {
 func Timed(d time.Duration, fn func()) (pi *PanicInfo, ok bool) {
 	done := make(chan *PanicInfo, 1)
 	go func() { done <- Safe(fn) }()
+	// a stopped timer, not time.After: millions of guarded calls per minute would otherwise leave millions of pending timers behind
+	t := time.NewTimer(d)
+	defer t.Stop()
 	select {
 	case pi = <-done:
 		return pi, true
-	case <-time.After(d):
+	case <-t.C:
+		// last look: under heavy load the timer can win the race against a call that has just finished
+		select {
+		case pi = <-done:
+			return pi, true
+		default:
+		}
 		return nil, false
 	}
 }
